@@ -810,6 +810,7 @@ RECVS = ["ref", "mut", "own", "pinref", "pinmut"]
 class Method:
     def __init__(self, idx, name, recv, args, ret, extern_c=False, unsafe=False):
         self.idx, self.name, self.recv, self.args, self.ret = idx, name, recv, args, ret
+        self.gid = idx  # id logged by the implementor (made batch-unique by gen_trait)
         self.extern_c, self.unsafe = extern_c, unsafe
         self.attrs = []
         self.default_body = False   # the trait provides a body
@@ -895,7 +896,7 @@ class Trait:
         return {"trait": self.name, "int_result": self.int_result, "methods": [m.describe() for m in self.methods], "containers": self.kinds()}
 
 
-def gen_trait(rng, name, prefix, max_methods=5, allow_child=True):
+def gen_trait(rng, name, prefix, max_methods=5, allow_child=True, tindex=0):
     n = rng.randint(1, max_methods)
     int_result = rng.random() < 0.5
     methods = []
@@ -936,6 +937,7 @@ def gen_trait(rng, name, prefix, max_methods=5, allow_child=True):
                 used_assoc[ret.assoc[0]] = ret.assoc
         m = Method(j, f"{prefix}_{j}", recv, args, ret,
                    extern_c=rng.random() < 0.12, unsafe=rng.random() < 0.08)
+        m.gid = tindex * 100 + j
         # a method the *user* declares extern "C" must have a C-safe signature to begin with
         # (otherwise rustc's lint fires on the user's own trait, not on generated code)
         plain_arg = lambda a: isinstance(a, (AVal, ARef, AMutRef, ARawPtr)) and getattr(a, "t", "") != "char"
